@@ -252,6 +252,10 @@ impl<W: WriteColor> SearchWorker<W> {
         };
         let path = haystack.path();
         log::trace!("{}: binary detection: {:?}", path.display(), bin);
+        #[cfg(feature = "verif-hooks")]
+        if !haystack.is_stdin() {
+            verif_fault_before_open(path);
+        }
 
         self.searcher.set_binary_detection(bin);
         if haystack.is_stdin() {
@@ -448,6 +452,42 @@ fn search_reader<M: Matcher, R: io::Read, W: WriteColor>(
                 has_match: sink.has_match(),
                 stats: Some(sink.stats().clone()),
             })
+        }
+    }
+}
+
+/// Verification hook: a fault injected between the moment a file was listed
+/// by the directory traversal and the moment it is opened for searching.
+///
+/// `VERIF_FAULT_BEFORE_OPEN` holds a comma separated list of
+/// `remove:<file name>` and `truncate:<file name>` items; a file whose name
+/// equals `<file name>` is removed (or truncated to zero length) right before
+/// ripgrep opens it.
+#[cfg(feature = "verif-hooks")]
+fn verif_fault_before_open(path: &Path) {
+    let Some(spec) = std::env::var_os("VERIF_FAULT_BEFORE_OPEN") else {
+        return;
+    };
+    let Some(spec) = spec.to_str() else { return };
+    let Some(name) = path.file_name().and_then(|n| n.to_str()) else {
+        return;
+    };
+    for item in spec.split(',') {
+        let Some((what, target)) = item.split_once(':') else { continue };
+        if target != name {
+            continue;
+        }
+        match what {
+            "remove" => {
+                let _ = std::fs::remove_file(path);
+            }
+            "truncate" => {
+                let _ = std::fs::OpenOptions::new()
+                    .write(true)
+                    .truncate(true)
+                    .open(path);
+            }
+            _ => {}
         }
     }
 }
